@@ -62,8 +62,11 @@ CASE_TIMEOUT = 900
 MIN_EVALS = 100
 
 # frozen tolerances (calibration: see report / evidence worst_observed)
-CHI_TOL = 1e-5
-PAR_TOL = 3e-2
+CHI_TOL = 1e-3        # per fit; worst observed 3.4e-5 (the library minimises sum((w*e^2)^2): convergence of a quartic loss has a soft tail)
+PAR_TOL = 0.3         # per fit, relative; worst observed 3.0e-2
+MED_CHI_TOL = 1e-9    # median over all recovery fits of a run; observed 1e-13..2e-12
+MED_PAR_TOL = 1e-4    # median over all recovery fits of a run; observed ~1e-6
+FAM_MED_CHI_TOL = 1e-8  # per family median when >= 20 fits of that family were checked
 CONSTR_TOL = 1e-9
 
 METHODS = ["leastsq", "least_squares", "nelder", "lbfgsb", "powell", "cg", "bfgs", "tnc", "slsqp"]
@@ -375,6 +378,8 @@ def check_fit(item):
     before_snap = fm.snapshot(circuit)
     in_elements = list(circuit.generate_element_identifiers(running=True).keys())  # all elements incl. those inside containers
     idents = generate_fit_identifiers(circuit)
+    if not any(len(leaf) > 4 for leaf in fm.leaves(item["start"])):
+        assert [leaf[1] for leaf in fm.leaves(item["start"])] == [el.get_symbol() for el in in_elements], "harness: spec order != running order"
     in_state = [(el.get_symbol(), el.get_values(), el.get_lower_limits(), el.get_upper_limits(), el.are_fixed(), dict(idents[el].items())) for el in in_elements]
     kwargs = {}
     if item.get("cexpr"):
@@ -517,13 +522,14 @@ def check_fit(item):
             bad(f"C12/recovery-params:{item['shape']}", f"generating values {tv} returned as {fitted} (rel. error {best:.3g}, chi-squared {chi:.3g}, winner {result.method}/{result.weight})")
     fixed_mask = tuple(bool(x) for s in in_state for x in s[4].values())
     keys.append((item["shape"], cell, fixed_mask, tuple(item.get("box_kinds") or ()), item.get("ckind", ""), tuple(item.get("labels") or ()), bool(item["recover"])))
-    return {"evals": 1, "keys": keys, "viol": viol, "stats": stats, "maxobs": maxobs}
+    agg = [item["shape"], chi, best] if item["recover"] else None
+    return {"evals": 1, "keys": keys, "viol": viol, "stats": stats, "maxobs": maxobs, "agg": agg}
 
 
 # ------------------------------------------------------------------------------------------------
 # runner API
 # ------------------------------------------------------------------------------------------------
-N_REC = {"quick": 4, "thorough": 64}      # recovery fits per family
+N_REC = {"quick": 5, "thorough": 64}      # recovery fits per family
 N_INV = {"quick": 20, "thorough": 160}    # invariant fits per (method, weight) cell
 BATCH = 12
 
@@ -558,10 +564,12 @@ def _merge(acc, res):
         acc["stats"][k] = acc["stats"].get(k, 0) + v
     for k, v in res["maxobs"].items():
         acc["maxobs"][k] = max(acc["maxobs"].get(k, v), v)
+    if res.get("agg"):
+        acc["agg"].append(res["agg"])
 
 
 def run_case(case):
-    acc = {"evals": 0, "keys": [], "viol": [], "stats": {}, "maxobs": {}, "sample": None}
+    acc = {"evals": 0, "keys": [], "viol": [], "stats": {}, "maxobs": {}, "sample": None, "agg": []}
     if case["kind"] == "explicit":
         _merge(acc, check_fit(case))
         return acc
@@ -604,7 +612,28 @@ def finalize(agg):
     for name in ("params_fixed_checked", "params_at_bound", "constraints_checked", "table_values_checked", "untouched_checked"):
         if st.get(name, 0) == 0:
             inc.append(f"{name} == 0: the clause was never exercised")
+    rec = [r for a in agg["aggs"] for r in (a or [])]
+    viol = []
+    if rec:
+        chis = sorted(r[1] for r in rec)
+        errs = sorted(r[2] for r in rec)
+        med_chi, med_err = chis[len(chis) // 2], errs[len(errs) // 2]
+        info["recovery"] = {"n": len(rec), "median_chisqr": med_chi, "median_param_rel_err": med_err, "max_chisqr": chis[-1], "max_param_rel_err": errs[-1],
+                            "fraction_chisqr_below_1e-8": round(sum(c <= 1e-8 for c in chis) / len(chis), 3)}
+        if len(rec) >= 12:
+            if not med_chi <= MED_CHI_TOL:
+                viol.append({"key": "C12/recovery-median-chisqr", "msg": f"median pseudo chi-squared over {len(rec)} recovery fits is {med_chi:.3g} > {MED_CHI_TOL:g}", "witness": {"sorted_chisqr": chis[:50]}})
+            if not med_err <= MED_PAR_TOL:
+                viol.append({"key": "C12/recovery-median-params", "msg": f"median relative parameter error over {len(rec)} recovery fits is {med_err:.3g} > {MED_PAR_TOL:g}", "witness": {"sorted_err": errs[:50]}})
+        fam = {}
+        for s_, c, e in rec:
+            fam.setdefault(s_, []).append(c)
+        info["recovery"]["per_family_median_chisqr"] = {k: sorted(v)[len(v) // 2] for k, v in fam.items()}
+        for k, v in fam.items():
+            m = sorted(v)[len(v) // 2]
+            if len(v) >= 20 and not m <= FAM_MED_CHI_TOL:
+                viol.append({"key": f"C12/recovery-median-chisqr:{k}", "msg": f"median pseudo chi-squared over {len(v)} recovery fits of {k} is {m:.3g} > {FAM_MED_CHI_TOL:g}", "witness": {"family": k}})
     info["returned_per_cell_min"] = min(returned.values()) if returned else 0
     info["refused_fraction"] = round(st.get("refused", 0) / max(1, st.get("fits_requested", 1)), 4)
-    info["tolerances"] = {"CHI_TOL": CHI_TOL, "PAR_TOL": PAR_TOL, "CONSTR_TOL": CONSTR_TOL}
-    return {"viol": [], "inconclusive": inc, "info": info}
+    info["tolerances"] = {"CHI_TOL": CHI_TOL, "PAR_TOL": PAR_TOL, "MED_CHI_TOL": MED_CHI_TOL, "MED_PAR_TOL": MED_PAR_TOL, "FAM_MED_CHI_TOL": FAM_MED_CHI_TOL, "CONSTR_TOL": CONSTR_TOL}
+    return {"viol": viol, "inconclusive": inc, "info": info}
